@@ -448,10 +448,11 @@ pub fn boundary_yaml_text(variant: usize) -> String {
 }
 
 /// One valid TOML document (many small tables) of at most `limit` bytes, ending at a table boundary.
-/// Its first lines make the YAML detection trial give up early, so detection from a reader gets to
-/// the TOML trial with almost nothing buffered.
+/// Its first lines make the YAML detection trial give up early (two `key = value # comment` lines: the
+/// comment ends what libyaml would otherwise scan as one plain scalar reaching to the end of the input),
+/// so detection from a reader gets to the TOML trial with almost nothing buffered.
 pub fn big_toml(limit: usize) -> Vec<u8> {
-    let mut big = String::from("# big\n");
+    let mut big = String::from("# big\n[t0]\na = 1 # one\nb = 2 # two\n");
     loop {
         let piece = format!("[t{}]\nk = \"aaaaaaaaaaaaaaaaaaaaaaaaaaaaaaaaaaaaaaaaaaaaaaaaaaaaaaaaaaaa\"\n", big.len());
         if big.len() + piece.len() > limit {
